@@ -5,6 +5,7 @@ import (
 	"encoding/json"
 	"fmt"
 	"regexp"
+	"strings"
 	"sync"
 	"time"
 
@@ -30,7 +31,11 @@ func traceLines(s *Scenario) []map[string]any {
 			produced = s.N + 1
 		}
 	}
-	lines := []map[string]any{{"e": "Reset", "kind": s.Kind, "n": s.N, "ka": b2s(s.ka()), "disc": b2s(s.CutAt >= 0)}}
+	pos := s.Pos
+	if pos < 1 {
+		pos = 1 // not part of a history: judged as the first request of a fresh handler
+	}
+	lines := []map[string]any{{"e": "Reset", "kind": s.Kind, "n": s.N, "ka": b2s(s.ka()), "disc": b2s(s.CutAt >= 0), "fail": s.FailAt, "pos": pos}}
 	for i, t := range s.Toks {
 		ids := t.IDs
 		if ids == nil {
@@ -220,4 +225,64 @@ func counterexample(out string) []string {
 		acts = append(acts, m[1])
 	}
 	return acts
+}
+
+// acceptedShared decides whole histories (the requests one server process
+// served, in order) against the DEVIATING design SharedBuf = TRUE of
+// Stream.tla - everything else strict: a request that follows a failed
+// serialization on the same handler may carry an event assembled on its
+// residue. Only used to NAME the deviation of streams the strict
+// configuration rejected. Histories are written in order, nothing is
+// deduplicated (what a request may look like depends on its predecessors).
+func acceptedShared(hists [][]*Scenario, st *tlcStats) map[*Scenario]bool {
+	out := map[*Scenario]bool{}
+	var flat []*Scenario
+	var buf bytes.Buffer
+	line := 1
+	for _, h := range hists {
+		for _, s := range h {
+			if s.EOF == "" {
+				continue
+			}
+			ls := traceLines(s)
+			flat = append(flat, s)
+			ls[0]["ix"] = len(flat)
+			ls[0]["nx"] = line + len(ls)
+			line += len(ls)
+			for _, l := range ls {
+				b, _ := json.Marshal(l)
+				buf.Write(b)
+				buf.WriteByte('\n')
+			}
+		}
+	}
+	if len(flat) == 0 {
+		return out
+	}
+	res, err := vlib.RunTLC(vlib.TLCOpts{Module: "StreamTrace", Config: "StreamTrace.cfg", Workers: 1, DFS: true,
+		Data: map[string][]byte{"trace.ndjson": buf.Bytes()},
+		CfgEdit: func(cfg string) string {
+			return strings.Replace(constEdit(true, true, true, true)(cfg), "\n  SharedBuf = FALSE", "\n  SharedBuf = TRUE", 1)
+		},
+		Scratch: vlib.Work("C12", "tv-sharedbuf"), Timeout: 25 * time.Minute})
+	if err != nil {
+		vlib.Infra("tlc: %v", err)
+	}
+	m := reAccepted.FindStringSubmatch(res.Output)
+	if !res.OK || m == nil {
+		vlib.Infra("StreamTrace run failed (sharedbuf): %s\n%s", res.Violation, tailStr(res.Output, 2500))
+	}
+	var ids []int
+	_ = json.Unmarshal([]byte(m[1]), &ids)
+	st.mu.Lock()
+	st.distinct += res.Distinct
+	st.generated += res.Generated
+	st.runs++
+	st.mu.Unlock()
+	for _, ix := range ids {
+		if ix >= 1 && ix <= len(flat) {
+			out[flat[ix-1]] = true
+		}
+	}
+	return out
 }
